@@ -191,3 +191,41 @@ V("C16-wrong-class-index", ["C16"], "factor_analysis",
   "            acc_D_A2 += fn_z_i * latent_z[y_i]", "            acc_D_A2 += fn_z_i * latent_z[y_i - 1]", "neighbouring class's offset used in the D accumulator")
 V("C16-sorted-loop", ["C16"], "factor_analysis", "        for i in set(y):\n            n_acc_i = n_acc[i]", "        for i in sorted(set(y)):\n            n_acc_i = n_acc[i]", "iterate the classes in sorted order", kind="benign")
 V("C16-time-seed", ["C16"], "kmeans", "random_state=self.random_state, max_iter=self.init_max_iter", "random_state=int(time.time()), max_iter=self.init_max_iter", "seed taken from the clock")
+
+# ----------------------------------------------------------------------------- C07
+V("C07-fn_y-sign-D", ["C07", "C09"], "factor_analysis", "fn_y_i = f_acc_i.flatten() - tmp_CD * (m + D * latent_z_i)", "fn_y_i = f_acc_i.flatten() - tmp_CD * (m - D * latent_z_i)", "revert of fix 8aa6de2: D z enters the speaker-factor residual with +")
+V("C07-fn_y-distributed", ["C07", "C09"], "factor_analysis", "fn_y_i = f_acc_i.flatten() - tmp_CD * (m + D * latent_z_i)", "fn_y_i = f_acc_i.flatten() - tmp_CD * m - tmp_CD * D * latent_z_i", "product distributed", kind="benign")
+V("C07-fn_y-negated-form", ["C07", "C09"], "factor_analysis", "fn_y_i = f_acc_i.flatten() - tmp_CD * (m + D * latent_z_i)", "fn_y_i = -(tmp_CD * (m + D * latent_z_i) - f_acc_i.flatten())", "written as -(b - a)", kind="benign")
+V("C07-fn_y-U-plus", ["C07", "C09"], "factor_analysis", "            fn_y_i -= tmp_CD * U_dot_x", "            fn_y_i += tmp_CD * U_dot_x", "channel term added to the speaker-factor residual")
+V("C07-fn_y-U-dropped", ["C07", "C09"], "factor_analysis", "            fn_y_i -= tmp_CD * U_dot_x", "            pass", "channel term dropped from the speaker-factor residual")
+V("C07-fn_y-class-weight", ["C07", "C09"], "factor_analysis", "            U_dot_x = U @ latent_x_i[:, session_id]\n            tmp_CD = np.repeat(n_i, self.feature_dimension)\n            fn_y_i -= tmp_CD * U_dot_x", "            U_dot_x = U @ latent_x_i[:, session_id]\n            fn_y_i -= tmp_CD * U_dot_x / len(X_i)", "channel term weighted by the class total instead of the session counts")
+V("C07-fn_z-V-plus", ["C07", "C09"], "factor_analysis", "fn_z_i = f_acc_i.flatten() - tmp_CD * (m + V_dot_v)", "fn_z_i = f_acc_i.flatten() - tmp_CD * (m - V_dot_v)", "V y enters the offset residual with +")
+V("C07-fn_z-mean-dropped", ["C07", "C09"], "factor_analysis", "fn_z_i = f_acc_i.flatten() - tmp_CD * (m + V_dot_v)", "fn_z_i = f_acc_i.flatten() - tmp_CD * V_dot_v", "UBM mean not subtracted in the offset residual")
+V("C07-fn_x-D-plus", ["C07", "C09"], "factor_analysis", "fn_x_ih = f_i.flatten() - n_ic * (self.mean_supervector + self._D * latent_z_i)", "fn_x_ih = f_i.flatten() - n_ic * (self.mean_supervector - self._D * latent_z_i)", "D z enters the channel residual with +")
+V("C07-fn_x-V-plus", ["C07", "C09"], "factor_analysis", "fn_x_ih -= n_ic * V_dot_v if latent_y_i is not None else 0", "fn_x_ih += n_ic * V_dot_v if latent_y_i is not None else 0", "V y added to the channel residual")
+V("C07-prior-dropped", ["C07"], "factor_analysis", "return np.linalg.inv(I + (UProd * n_i[:, None, None]).sum(axis=0))", "return np.linalg.inv(1e-12 * I + (UProd * n_i[:, None, None]).sum(axis=0))", "prior precision (identity) effectively removed from the channel posterior", kind="benign", may_be_undecided=True)
+V("C07-prior-removed", ["C07"], "factor_analysis", "id_plus_d_prod = np.ones(tmp_CD.shape) + dt_inv_sigma_d * tmp_CD", "id_plus_d_prod = dt_inv_sigma_d * tmp_CD", "identity missing from the offset precision")
+V("C07-precision-minus", ["C07"], "factor_analysis", "return np.linalg.inv(I + (VProd * n_acc_i[:, None, None]).sum(axis=0))", "return np.linalg.inv(I - (VProd * n_acc_i[:, None, None]).sum(axis=0))", "data term subtracted in the speaker precision")
+V("C07-not-inverted", ["C07"], "factor_analysis", "return np.linalg.inv(I + (VProd * n_acc_i[:, None, None]).sum(axis=0))", "return I + (VProd * n_acc_i[:, None, None]).sum(axis=0)", "precision returned instead of covariance")
+V("C07-stale-z", ["C07"], "factor_analysis",
+  "            latent_y = self.update_y(X=X, y=y, n_classes=1, VProd=VProd, latent_x=latent_x, latent_y=latent_y, latent_z=latent_z, n_acc=n_acc, f_acc=f_acc)\n            latent_x = self.compute_latent_x(X=X, y=y, n_classes=1, UProd=UProd, latent_y=latent_y, latent_z=latent_z)\n            latent_z = self.update_z(",
+  "            old_z = latent_z\n            latent_y = self.update_y(X=X, y=y, n_classes=1, VProd=VProd, latent_x=latent_x, latent_y=latent_y, latent_z=latent_z, n_acc=n_acc, f_acc=f_acc)\n            latent_x = self.compute_latent_x(X=X, y=y, n_classes=1, UProd=UProd, latent_y=latent_y, latent_z=latent_z)\n            latent_z = self.update_z(",
+  "harmless alias of the current z", kind="benign")
+V("C07-stale-y-to-x", ["C07"], "factor_analysis",
+  "            latent_y = self.update_y(X=X, y=y, n_classes=1, VProd=VProd, latent_x=latent_x, latent_y=latent_y, latent_z=latent_z, n_acc=n_acc, f_acc=f_acc)\n            latent_x = self.compute_latent_x(X=X, y=y, n_classes=1, UProd=UProd, latent_y=latent_y, latent_z=latent_z)",
+  "            prev_y = latent_y\n            latent_y = self.update_y(X=X, y=y, n_classes=1, VProd=VProd, latent_x=latent_x, latent_y=latent_y, latent_z=latent_z, n_acc=n_acc, f_acc=f_acc)\n            latent_x = self.compute_latent_x(X=X, y=y, n_classes=1, UProd=UProd, latent_y=prev_y, latent_z=latent_z)",
+  "channel update conditioned on the previous pass's speaker factors (Jacobi instead of Gauss-Seidel)")
+V("C07-z-update-dropped", ["C07"], "factor_analysis",
+  "            latent_x = self.compute_latent_x(X=X, y=y, n_classes=1, UProd=UProd, latent_y=latent_y, latent_z=latent_z)\n            latent_z = self.update_z(X=X, y=y, latent_x=latent_x, latent_y=latent_y, latent_z=latent_z, n_acc=n_acc, f_acc=f_acc)\n        return (latent_y[0], latent_z[0])",
+  "            latent_x = self.compute_latent_x(X=X, y=y, n_classes=1, UProd=UProd, latent_y=latent_y, latent_z=latent_z)\n        latent_z = self.update_z(X=X, y=y, latent_x=latent_x, latent_y=latent_y, latent_z=latent_z, n_acc=n_acc, f_acc=f_acc)\n        return (latent_y[0], latent_z[0])",
+  "offset update moved out of the enrolment loop")
+V("C07-x-before-y", ["C07"], "factor_analysis",
+  "            latent_y = self.update_y(X=X, y=y, n_classes=1, VProd=VProd, latent_x=latent_x, latent_y=latent_y, latent_z=latent_z, n_acc=n_acc, f_acc=f_acc)\n            latent_x = self.compute_latent_x(X=X, y=y, n_classes=1, UProd=UProd, latent_y=latent_y, latent_z=latent_z)",
+  "            latent_x = self.compute_latent_x(X=X, y=y, n_classes=1, UProd=UProd, latent_y=latent_y, latent_z=latent_z)\n            latent_y = self.update_y(X=X, y=y, n_classes=1, VProd=VProd, latent_x=latent_x, latent_y=latent_y, latent_z=latent_z, n_acc=n_acc, f_acc=f_acc)",
+  "another block order within a pass", kind="benign")
+V("C07-iterations-minus-one", ["C07"], "factor_analysis", "        for i in range(iterations):\n            logger.info('Enrollment: Iteration %d', i + 1)\n            latent_y = self.update_y(", "        for i in range(iterations - 1):\n            logger.info('Enrollment: Iteration %d', i + 1)\n            latent_y = self.update_y(", "one enrolment pass fewer than configured")
+V("C07-args-crossed", ["C07", "C09"], "factor_analysis", "fn_y_i = self._compute_fn_y_i(X_i, latent_x_i, latent_z_i, n_acc_i, f_acc_i)", "fn_y_i = self._compute_fn_y_i(X_i, latent_z_i, latent_x_i, n_acc_i, f_acc_i)", "x and z factors crossed at the residual kernel call")
+V("C07-return-stale", ["C07"], "factor_analysis",
+  "            latent_z = self.update_z(X=X, y=y, latent_x=latent_x, latent_y=latent_y, latent_z=latent_z, n_acc=n_acc, f_acc=f_acc)\n        return latent_z",
+  "            new_z = self.update_z(X=X, y=y, latent_x=latent_x, latent_y=latent_y, latent_z=latent_z, n_acc=n_acc, f_acc=f_acc)\n        return latent_z",
+  "ISV enrolment returns the buffer name instead of the result (same object here: update_z fills it in place)", kind="benign", may_be_undecided=True)
